@@ -231,6 +231,51 @@ Inductive stepres :=
 | StEof                                                        (* close(tokens); return *)
 | StGo (toks : list token) (lt : ttype) (lb : bool) (s : st).  (* tokens sent, lastTokenType, lastWasBlank *)
 
+(* the default case of the switch: number, identifier / text operator / keyword, operator *)
+Definition step_word (fuel : nat) (cfg : tcfg) (lt : ttype) (ln : N) (s1 : st) : stepres :=
+  let cm := c_comments cfg in
+  let s2 := unread s1 in
+  let '(c, s3) := peek cm true s2 in
+  if number_start cfg c then
+    match read_skip fuel cm true (number_valid cfg) 0 s3 with
+    | None => StFuel
+    | Some (w, s4) =>
+        StGo ((if mul_before lt then [star ln] else []) ++ [mkTok tNumber w ln]) (this_ty cfg tNumber) false s4
+    end
+  else if ident_start cfg c then
+    match read_skip fuel cm true (ident_valid cfg) 0 s3 with
+    | None => StFuel
+    | Some (w, s4) =>
+        match assoc w (c_textops cfg) with
+        | Some op => StGo [mkTok tOperate op ln] tInvalid false s4
+        | None =>
+            if mem_str w (c_keywords cfg) then StGo [mkTok tKeyWord w ln] tInvalid false s4
+            else StGo ((if mul_before lt then [star ln] else []) ++ [mkTok tIdent w ln]) (this_ty cfg tIdent) false s4
+        end
+    end
+  else
+    match parse_operator fuel cm (c_ops cfg) s3 with
+    | None => StFuel
+    | Some (w, ok, s4) => StGo [mkTok (if ok then tOperate else tInvalid) w ln] tInvalid false s4
+    end.
+
+(* the cases of the switch that read a literal: string, quoted identifier *)
+Definition step_string (fuel : nat) (cfg : tcfg) (ln : N) (s1 : st) : stepres :=
+  match read_str fuel (c_comments cfg) s1 with
+  | None => StFuel
+  | Some (Some w, s2) => StGo [mkTok tString w ln] tInvalid false s2
+  | Some (None, s2) => StGo [mkTok tInvalid [69; 79; 76] ln] tInvalid false s2
+  end.
+
+Definition step_quoted (fuel : nat) (cfg : tcfg) (lt : ttype) (ln : N) (s1 : st) : stepres :=
+  let cm := c_comments cfg in
+  match read_skip fuel cm false (fun _ c => negb (c =? 39)) 0 s1 with
+  | None => StFuel
+  | Some (w, s2) =>
+      let '(_, s3) := next cm false s2 in
+      StGo ((if mul_before lt then [star ln] else []) ++ [mkTok tIdent w ln]) (this_ty cfg tIdent) false s3
+  end.
+
 Definition step (fuel : nat) (cfg : tcfg) (lt : ttype) (lb : bool) (s : st) : stepres :=
   let cm := c_comments cfg in
   let '(n, s1) := next cm true s in
@@ -244,46 +289,11 @@ Definition step (fuel : nat) (cfg : tcfg) (lt : ttype) (lb : bool) (s : st) : st
   else match single_tok n with
   | Some ty => StGo [mkTok ty [n] ln] tInvalid false s1
   | None =>
-  if n =? 34 then
-    match read_str fuel cm s1 with
-    | None => StFuel
-    | Some (Some w, s2) => StGo [mkTok tString w ln] tInvalid false s2
-    | Some (None, s2) => StGo [mkTok tInvalid [69; 79; 76] ln] tInvalid false s2
-    end
-  else if n =? 39 then
-    match read_skip fuel cm false (fun _ c => negb (c =? 39)) 0 s1 with
-    | None => StFuel
-    | Some (w, s2) =>
-        let '(_, s3) := next cm false s2 in
-        StGo ((if mul_before lt then [star ln] else []) ++ [mkTok tIdent w ln]) (this_ty cfg tIdent) false s3
-    end
+  if n =? 34 then step_string fuel cfg ln s1
+  else if n =? 39 then step_quoted fuel cfg lt ln s1
   else match superscript n with
   | Some d => StGo [mkTok tOperate [94] ln; mkTok tNumber [d] ln] tInvalid false s1
-  | None =>
-    let s2 := unread s1 in
-    let '(c, s3) := peek cm true s2 in
-    if number_start cfg c then
-      match read_skip fuel cm true (number_valid cfg) 0 s3 with
-      | None => StFuel
-      | Some (w, s4) =>
-          StGo ((if mul_before lt then [star ln] else []) ++ [mkTok tNumber w ln]) (this_ty cfg tNumber) false s4
-      end
-    else if ident_start cfg c then
-      match read_skip fuel cm true (ident_valid cfg) 0 s3 with
-      | None => StFuel
-      | Some (w, s4) =>
-          match assoc w (c_textops cfg) with
-          | Some op => StGo [mkTok tOperate op ln] tInvalid false s4
-          | None =>
-              if mem_str w (c_keywords cfg) then StGo [mkTok tKeyWord w ln] tInvalid false s4
-              else StGo ((if mul_before lt then [star ln] else []) ++ [mkTok tIdent w ln]) (this_ty cfg tIdent) false s4
-          end
-      end
-    else
-      match parse_operator fuel cm (c_ops cfg) s3 with
-      | None => StFuel
-      | Some (w, ok, s4) => StGo [mkTok (if ok then tOperate else tInvalid) w ln] tInvalid false s4
-      end
+  | None => step_word fuel cfg lt ln s1
   end end.
 
 Fixpoint run (fuel : nat) (cfg : tcfg) (lt : ttype) (lb : bool) (s : st) : option (list token) :=
